@@ -38,8 +38,17 @@ int main() {
             std::cout << "op"; for (std::size_t i = 1; i < w.size(); i++) std::cout << " " << w[i]; std::cout << "\n";
             if (w[1] == "set") {
                 // alternately from this translation unit and from a second one (h_knob_tu2.cpp)
-                if ((nset++) % 2 == 0) parmcb::set_global_tbb_concurrency(std::stoul(w[2]));
-                else parmcb_verif_tu2_set(std::stoul(w[2]));
+                // and with the integer types a caller may pass (literals are int; sizes are size_t; option values unsigned / long):
+                // all of them denote the same request
+                unsigned long v = std::stoul(w[2]);
+                std::size_t turn = nset++;
+                if (turn % 2 == 1) parmcb_verif_tu2_set(v);
+                else switch ((turn / 2) % 4) {
+                    case 0: parmcb::set_global_tbb_concurrency(v); break;
+                    case 1: parmcb::set_global_tbb_concurrency((int) v); break;
+                    case 2: parmcb::set_global_tbb_concurrency((unsigned) v); break;
+                    default: parmcb::set_global_tbb_concurrency((long) v); break;
+                }
             }
             else if (w[1] == "push") client.emplace_back(new tbb::global_control(tbb::global_control::max_allowed_parallelism, std::stoul(w[2])));
             else if (w[1] == "pop") { if (!client.empty()) client.pop_back(); }
